@@ -15,8 +15,8 @@
 //	end <c> <k> <epoch> <commit>                 -> <code> <epoch>
 //	del <p> <off>                                -> <code> <lowWatermark>
 //	sleep <ms>                                   -> ok
-//	fetch <c> <iso> <maxBytes> <sid> <sepoch> <p:off:pmax,..|-> <forget p,..|->
-//	      -> <err> <sid> <p>:<code>:<hwm>:<lso>:<logStart>:<batches>:<aborted> ... (partitions sorted)
+//	fetch <c> <iso> <maxBytes> <sid> <sepoch> <p:off:pmax,..|-> <forget p,..|-> [<minBytes> <maxWaitMs>]
+//	      -> <elapsed virtual ms> <err> <sid> <p>:<code>:<hwm>:<lso>:<logStart>:<batches>:<aborted> ... (partitions sorted)
 //	         batch = first.n.k.epoch.seq.flags  (flags: d data, t transactional data, C commit marker, A abort marker)
 //	         aborted = k@first
 package main
@@ -345,11 +345,11 @@ func (im *impl) batches(raw []byte) string {
 	return strings.Join(out, "+")
 }
 
-func (im *impl) fetch(c string, iso int8, maxBytes, sid, sepoch int32, parts, forget string) string {
+func (im *impl) fetch(c string, iso int8, maxBytes, sid, sepoch int32, parts, forget string, minBytes, maxWait int32) string {
 	req := kmsg.NewPtrFetchRequest()
 	req.ReplicaID = -1
-	req.MaxWaitMillis = 0
-	req.MinBytes = 0
+	req.MaxWaitMillis = maxWait
+	req.MinBytes = minBytes
 	req.MaxBytes = maxBytes
 	req.IsolationLevel = iso
 	req.SessionID = sid
@@ -380,10 +380,13 @@ func (im *impl) fetch(c string, iso int8, maxBytes, sid, sepoch int32, parts, fo
 		}
 		req.ForgottenTopics = append(req.ForgottenTopics, ft)
 	}
+	start := time.Now()
 	kresp, err := im.do(im.cl(c), req)
 	if err != nil {
 		return "err-request:" + strings.ReplaceAll(err.Error(), " ", "_")
 	}
+	elapsed := time.Since(start).Milliseconds()
+	synctest.Wait()
 	resp := kresp.(*kmsg.FetchResponse)
 	var ps []string
 	for _, t := range resp.Topics {
@@ -400,7 +403,7 @@ func (im *impl) fetch(c string, iso int8, maxBytes, sid, sepoch int32, parts, fo
 		}
 	}
 	sort.Strings(ps)
-	return strings.TrimSpace(fmt.Sprintf("%d %d %s", resp.ErrorCode, resp.SessionID, strings.Join(ps, " ")))
+	return strings.TrimSpace(fmt.Sprintf("%d %d %d %s", elapsed, resp.ErrorCode, resp.SessionID, strings.Join(ps, " ")))
 }
 
 func ints32(s string) []int32 {
@@ -430,7 +433,14 @@ func (im *impl) op(t []string) string {
 		synctest.Wait()
 		return "ok"
 	case "fetch":
-		return im.fetch(t[1], int8(hx.Atoi(t[2])), int32(hx.Atoi(t[3])), int32(hx.Atoi(t[4])), int32(hx.Atoi(t[5])), t[6], t[7])
+		var minb, wait int32
+		if len(t) >= 10 {
+			minb, wait = int32(hx.Atoi(t[8])), int32(hx.Atoi(t[9]))
+			if wait > 0 && minb > 0 {
+				hx.St.Inc("fetch.minbytes")
+			}
+		}
+		return im.fetch(t[1], int8(hx.Atoi(t[2])), int32(hx.Atoi(t[3])), int32(hx.Atoi(t[4])), int32(hx.Atoi(t[5])), t[6], t[7], minb, wait)
 	}
 	return "bad-op"
 }
@@ -448,6 +458,13 @@ func stat(t []string, res string) {
 		}
 		hx.St.Inc("prod." + kind + "." + t[1] + ".code" + code)
 	case "fetch":
+		if f := strings.Fields(res + " ? ?"); f[0] != "0" && f[0] != "?" {
+			hx.St.Inc("fetch.waited")
+			if f[0] != t[len(t)-1] {
+				hx.St.Inc("fetch.woken-by-timeout-abort")
+			}
+		}
+		code = strings.Fields(res + " ? ?")[1]
 		k := "plain"
 		if t[5] == "0" {
 			k = "newsession"
